@@ -500,6 +500,10 @@ class Interp:
             _, porigin, pkind, key = origin
             parent = self.load(st, porigin, pkind)
             return SV(kind, tselect(parent.tree[1], key), origin)
+        if tag == "optval":
+            _, porigin, pkind = origin
+            parent = self.load(st, porigin, pkind)
+            return SV(kind, parent.tree[1], origin)
         h = getattr(self, "origin_handlers", {}).get(tag)
         if h:
             return h[0](st, origin, kind)
@@ -523,6 +527,10 @@ class Interp:
             sv = self.coerce(sv, vk)
             newp = SV(pkind, (parent.tree[0], tstore(parent.tree[1], key, sv.tree)))
             return self.store(st, porigin, newp)
+        if tag == "optval":
+            _, porigin, pkind = origin
+            sv = self.coerce(sv, pkind.args[0])
+            return self.store(st, porigin, SV(pkind, (z3.BoolVal(False), sv.tree)))
         h = getattr(self, "origin_handlers", {}).get(tag)
         if h:
             return h[1](st, origin, sv)
@@ -1155,7 +1163,7 @@ class Interp:
                 return
             raise Unsupported("negative index into a Val tuple")
         if t == "opt":
-            inner = SV(base.kind.args[0], base.tree[1], base.origin)
+            inner = SV(base.kind.args[0], base.tree[1], ("optval", base.origin, base.kind) if base.origin else None)
             if st.pure:
                 yield from self.getitem(st, inner, idx)
                 return
@@ -1465,6 +1473,11 @@ class Interp:
         if not isinstance(cont, SV):
             raise Unsupported("`in` on %r" % (cont,))
         t = cont.kind.tag
+        if t == "opt":
+            # `x in None` raises TypeError: the container must be known not to be None here
+            if not st.pure:
+                self.emit(st, "defined", "not-None(in)", z3.Not(cont.tree[0]))
+            return self.contains(st, SV(cont.kind.args[0], cont.tree[1], cont.origin), item)
         if t in ("set", "dict"):
             kk = cont.kind.args[0]
             item = self.tup_to_sv(item)
